@@ -209,7 +209,7 @@ def _check_bgl_identity(case):
     y = MC._wrap(case, "y", "lab")
     sf = MC._wrap(case, "sf", "grp")
     m = BoundedGroupLoss(MC.make_loss(case["loss"]), upper_bound=case["upper_bound"])
-    m.load_data(X, y, sensitive_features=sf)
+    MC.load_reloaded(m, case, warm=lambda mm: mm.signed_weights(), only_sf=True)
     index = m.index
     lam = _lam_series(index, case["lam"])
     mu = _lam_series(index, case["lam2"])
@@ -254,9 +254,7 @@ def _check_bgl_identity(case):
 
 def _check_error_rate_identity(case):
     n = case["n"]
-    m = MC.make_error_rate(case["costs"])
-    X, y, kw = MC.build_data(case)
-    m.load_data(X, y, **kw)
+    m = MC.load_reloaded(MC.make_error_rate(case["costs"]), case, warm=lambda mm: mm.signed_weights())
     w = _weights(m.signed_weights(), n, "ErrorRate.signed_weights()")
 
     def err(hv):
